@@ -7,7 +7,7 @@ OUT=/verif/seeded/$PROP-$NAME
 WT=/tmp/confwt-$$
 mkdir -p $OUT
 cp $SRC/patch.diff $OUT/patch.diff; cp $SRC/demo.sh $OUT/demo.sh 2>/dev/null || cp $SRC/demo.py $OUT/ 2>/dev/null; cp $SRC/meta.json $OUT/meta.agent.json
-git -C /repo worktree add -q --detach $WT HEAD || exit 2
+git -C /repo worktree add -q --detach $WT ${MUT_BASE:-HEAD} || exit 2
 APPLY=ok; git -C $WT apply $OUT/patch.diff || APPLY=fail
 BUILD=fail; /tmp/mutkit/mk.sh $WT /tmp/confmlr-$$ >/tmp/confbuild-$$.log 2>&1 && BUILD=ok
 TESTS=$(nice /tmp/mutkit/tests.sh $WT 2>&1 | head -1)
